@@ -185,7 +185,10 @@ def zero_filled_names(F, S):
                 if (d.get("rec") or "").startswith("std::vector<OP2Utility::Archive::ClmFile::IndexEntry") and "init" in d:
                     ini = ca.n(ca.strip(d["init"], casts=False))
                     t = ca.term(d["init"])
-                    ok_decl = t[0] == "ctor" and len(t[2]) >= 1 and t[2][0][0] == "size" and not ini.get("list_init")
+                    a0 = t[2][0] if t[0] == "ctor" and len(t[2]) >= 1 else None
+                    if a0 is not None and a0[0] == "var":
+                        a0 = ca.through_locals_at(a0, nd["id"])       # (the count may have been named first)
+                    ok_decl = a0 is not None and a0[0] == "size" and not ini.get("list_init")
     inst = "OP2Utility::Archive::ClmFile::CreateArchive#index-value-initialised"
     if ok_decl:
         out.append(ok("R-INIT", inst, ca.loc(ca.body), ca.qn, "the CLM index is created as vector<IndexEntry>(n): every entry zero-initialised (names zero-filled)", "value-initialising constructor"))
@@ -265,10 +268,32 @@ def sort_before_layout(F, S):
         good = len(sorts) == 1
         if good:
             a = [fn.term(x) for x in sorts[0]["args"]]
-            good = len(a) == 3 and a[0] == ("call", "std::vector::begin", files, ()) or (len(a) == 3 and "begin" in repr(a[0]) and files in (a[0][2],))
+            # the list may first be handed over whole to the place it is kept in (`info.files = std::move(files);`): that
+            # place is then what must be sorted before anything is derived from it
+            home = None
+            transfer = set()
+            for nd in fn.nodes:
+                if nd["k"] == "CXXOperatorCallExpr" and nd.get("op") == "=" and len(nd.get("args", [])) == 2 and nd["id"] < sorts[0]["id"]:
+                    r = fn.term(nd["args"][1])
+                    while r[0] == "ctor" and len(r[2]) == 1:
+                        r = r[2][0]
+                    if r == files or r == ("call", "std::move", None, (files,)):
+                        home = fn.term(nd["args"][0])
+                        transfer = set(fn.subtree(nd["id"]))
+            rng = a[0][2] if len(a) == 3 and a[0][0] == "call" and a[0][1].split("::")[-1] == "begin" else None
+            good = len(a) == 3 and rng is not None and rng in (files, home) and a[1] == ("call", a[0][1][:-len("begin")] + "end", rng, ())
             good = good and a[2] == ("func", [f.key for f in F.fns("OP2Utility::Archive::ArchiveFile::ComparePathFilenames")][0])
-            uses = [nd["id"] for nd in fn.nodes if nd["k"] == "DeclRefExpr" and ("var", nd.get("n"), nd.get("d")) == files]
-            first_other = min([u for u in uses if u not in fn.subtree(sorts[0]["id"])] or [10 ** 9])
+            in_sort = set(fn.subtree(sorts[0]["id"]))
+            ref_inits = set()
+            for nd in fn.nodes:
+                if nd["k"] == "DeclStmt":
+                    for d in nd.get("decls", []):
+                        if d.get("is_ref") and "init" in d:
+                            ref_inits |= set(fn.subtree(d["init"]))      # binding a reference reads nothing
+            uses = [nd["id"] for nd in fn.nodes if nd["id"] not in in_sort and nd["id"] not in transfer and nd["id"] not in ref_inits and
+                    ((nd["k"] == "DeclRefExpr" and ("var", nd.get("n"), nd.get("d")) == files) or
+                     (home is not None and rng == home and nd["k"] in ("MemberExpr", "DeclRefExpr") and fn.term(nd["id"]) == home))]
+            first_other = min(uses or [10 ** 9])
             good = good and sorts[0]["id"] < first_other
         if good:
             out.append(ok("R-MUSTCALL", inst, fn.loc(sorts[0]["id"]), fn.qn, req, "sort is the first use of the list"))
@@ -457,6 +482,12 @@ def raw_write_extents(F, S):
             elif pt[0] == "un" and pt[1] == "&" and pt[2][0] == "idx":
                 out.append(ok("R-COPYEXT", inst, site, fn.qn, req, "row source inside the pixel vector: shape decided under C08 (WritePixels rows)", nontrivial=False))
                 continue
+            elif pt[0] == "var" and fn.qn.endswith("BitmapFile::WritePixels"):
+                nd0, d0 = var_decl(fn, pt)
+                it0 = fn.term(d0["init"]) if d0 and "init" in d0 else None
+                if it0 is not None and it0[0] == "call" and it0[1].endswith("::data"):
+                    out.append(ok("R-COPYEXT", inst, site, fn.qn, req, "row pointer walking the pixel vector: shape decided under C08 (WritePixels rows)", nontrivial=False))
+                    continue
             if ext is None:
                 raise AnalysisBroken("raw write at %s: the extent of %s is not modelled" % (site, fmt_term(pt)))
             # substitute closed definitions of scratch-structure fields (VolFile::CreateVolumeInfo)
